@@ -219,7 +219,7 @@ fn run(c: &mut Ctx) {
         run_batch(c, Batch { opts, update: k % 2 == 1, hi, ca, vels }, "vrate_sweep");
     }
     // generated combinations
-    let nb = c.tier.pick(64usize, 256usize);
+    let nb = c.tier.pick(320usize, 1024usize);
     for _ in 0..nb {
         let (opts, update, hi, ca, _) = c.draw(1, &ctx_strat).into_iter().next().unwrap();
         let vels = c.draw(1000, gen::vel_any());
